@@ -216,10 +216,9 @@ package types
 //@   let parts = strings.Split(packetData.Denom, "/")
 //@   lemma split_head: forall p string, c string, D string :: packetData.Denom == p + "/" + c + "/" + D && !contains(p, "/") && !contains(c, "/") ==> len(parts) >= 3 && parts[0] == p && parts[1] == c
 //@   lemma split_rest: forall p string, c string, D string :: packetData.Denom == p + "/" + c + "/" + D && !contains(p, "/") && !contains(c, "/") ==> joinFrom(parts, "/", 2) == D
-//@   let den = ExtractDenomFromPath(packetData.Denom)
-//@   lemma at_least_one_hop: forall p string, c string, D string :: packetData.Denom == p + "/" + c + "/" + D && !contains(p, "/") && !contains(c, "/") && (channeltypes.IsValidChannelID(c) || clienttypes.IsValidClientID(c)) ==> len(den.Trace) >= 1
-//@   lemma at_most_one_hop: len(parts) < 4 || !(channeltypes.IsValidChannelID(parts[3]) || clienttypes.IsValidClientID(parts[3])) ==> len(den.Trace) <= 1
-//@   lemma one_hop_shape: forall p string, c string, D string :: packetData.Denom == p + "/" + c + "/" + D && !contains(p, "/") && !contains(c, "/") && len(den.Trace) == 1 ==> den.Trace[0].PortId == p && den.Trace[0].ChannelId == c && den.Base == D
+//@   lemma at_least_one_hop: forall p string, c string, D string :: packetData.Denom == p + "/" + c + "/" + D && !contains(p, "/") && !contains(c, "/") && (channeltypes.IsValidChannelID(c) || clienttypes.IsValidClientID(c)) ==> len(ExtractDenomFromPath(packetData.Denom).Trace) >= 1
+//@   lemma at_most_one_hop: len(parts) < 4 || !(channeltypes.IsValidChannelID(parts[3]) || clienttypes.IsValidClientID(parts[3])) ==> len(ExtractDenomFromPath(packetData.Denom).Trace) <= 1
+//@   lemma one_hop_shape: forall p string, c string, D string :: packetData.Denom == p + "/" + c + "/" + D && !contains(p, "/") && !contains(c, "/") && len(ExtractDenomFromPath(packetData.Denom).Trace) == 1 ==> ExtractDenomFromPath(packetData.Denom).Trace[0].PortId == p && ExtractDenomFromPath(packetData.Denom).Trace[0].ChannelId == c && ExtractDenomFromPath(packetData.Denom).Base == D
 //@   ensures fields_copied: err == nil ==> result0.Sender == packetData.Sender && result0.Receiver == packetData.Receiver && result0.Memo == packetData.Memo && result0.Token.Amount == packetData.Amount && result0.Token.Denom == ExtractDenomFromPath(packetData.Denom)
 //@   ensures accepted_iff_valid: (err == nil) == (packetData.ValidateBasic() == nil)
 //@   ensures returning_native_denom_parses_back: forall p string, c string, D string :: err == nil && packetData.Denom == p + "/" + c + "/" + D && !contains(p, "/") && !contains(c, "/") && (channeltypes.IsValidChannelID(c) || clienttypes.IsValidClientID(c)) ==> len(result0.Token.Denom.Trace) == 1 && result0.Token.Denom.Trace[0].PortId == p && result0.Token.Denom.Trace[0].ChannelId == c && result0.Token.Denom.Base == D
